@@ -273,7 +273,20 @@ impl<'xml> Deserializer<'xml> {
             }
             DeEvent::Text(x) => {
                 self.consume_peeked();
-                f(x)
+                // character data interrupted by comments, processing instructions or CDATA sections arrives as
+                // several text events: together they are the text of the element
+                let mut joined: Option<Vec<u8>> = None;
+                while let DeEvent::Text(y) = self.peek_event()? {
+                    self.consume_peeked();
+                    joined.get_or_insert_with(|| x.to_vec()).extend_from_slice(&y);
+                }
+                match joined {
+                    None => f(x),
+                    Some(bytes) => {
+                        let s = String::from_utf8(bytes).map_err(|_| DeError::InvalidContent)?;
+                        f(BytesText::from_escaped(s))
+                    }
+                }
             }
             DeEvent::Eof => {
                 self.consume_peeked();
